@@ -500,7 +500,7 @@ pub fn generate(out: &mut Out, tier: &str, seed: u64) {
         });
         out.case(&i2, &o, nt, &req);
     }
-    let n = if thorough { 40000 } else { 2500 };
+    let n = if thorough { 300000 } else { 6000 };
     for i in 0..n {
         let cfg = GenCfg { max_ops: if i % 4 == 0 { 40 } else { 16 }, removals: if i % 3 == 0 { 0 } else { 3 }, invalid: 20, values: true };
         // two thirds of the histories give every item a public id (the claim without the known class)
